@@ -288,6 +288,9 @@ func c20sWritesState(op OpCode) bool {
 	return false
 }
 
+// > 0: the frame gets at most this much gas (the real-memory harness keeps the memory small with it)
+var c20sGasBound uint64
+
 // >= 0: only this operand (counted from the top of the stack) is symbolic, the others are zero
 var c20sOnlySymbolic = -1
 
@@ -318,6 +321,9 @@ func c20sRun(op OpCode, depth int, readOnly bool) {
 	}
 	code = append(code, byte(op))
 	gas := verifNondetUint64()
+	if c20sGasBound > 0 {
+		verifAssume(gas <= c20sGasBound)
+	}
 	contract := NewContract(AccountRef(c20Caller), AccountRef(c20Contract), new(big.Int), gas)
 	a := c20Contract
 	contract.SetCallCode(&a, common.Hash{0x01}, code)
